@@ -1,6 +1,7 @@
 """Correspondence stage `fmt`: Model.Format.format_float evaluated by coqc on
 binary64 inputs, compared character by character with util.format_float."""
 import random, re, json, os, math, struct
+import gen
 from vlib import *
 
 HEADER = '''From Coq Require Import ZArith NArith List Bool PrimFloat.
@@ -121,3 +122,74 @@ def run_fmt(chk, rng, n):
                 nprbad += 1
                 chk.tie_broken('correspondence', 'fmt', 'the reader of Proofs/FormatT.v reads %r as %r, Python reads %s' % (t, v, want))
     chk.stages['fmt'] = dict(cases=len(cases), compared=ncmp, disagreements=nbad, kinds=kinds, texts_read_back=npr, reader_disagreements=nprbad)
+
+
+# ------------------------------------------------------------------ stage env: the ENVIRONMENT block, line kinds
+ENV_HEADER = '''From Coq Require Import List Bool Arith.
+Import ListNotations.
+From PM Require Import Model.Env.
+Set Printing Depth 10000000. Set Printing Width 1000000.
+'''
+def gen_media(rng):
+    """None = free space, [] = perfect ground, else 1..4 real media, the first optionally with a radial screen"""
+    u = rng.random()
+    if u < 0.08: return None
+    if u < 0.16: return []
+    n = rng.choice([1, 2, 2, 3, 3, 3, 4])
+    bd = rng.choice(['linear', 'circular'])
+    media = []
+    x = 0.0
+    for i in range(n):
+        x += 10 ** rng.uniform(0, 1.5)
+        md = dict(perm=rng.choice([3, 13, 20, 80]), cond=float('%.4g' % 10 ** rng.uniform(-4, 0.7)),
+                  height=(0.0 if i == 0 else -float('%.3g' % rng.uniform(0.1, 5))), coord=(x if i < n - 1 else None), boundary=bd)
+        if i == 0 and n > 1 and rng.random() < 0.4:
+            md['nradials'] = rng.choice([4, 36, 120]); md['radius'] = 0.002
+        media.append(md)
+    return media
+
+def run_env(chk, rng, n):
+    cases = [dict(id=i, media=gen_media(rng)) for i in range(n)]
+    # every shape once, whatever the random stream does
+    fixed = [None, []] + [[dict(perm=13, cond=0.005, height=(0.0 if i == 0 else -1.0 * i), coord=(10.0 * (i + 1) if i < k - 1 else None), boundary=bd,
+                                **(dict(nradials=36, radius=0.002) if (rad and i == 0 and k > 1) else {})) for i in range(k)]
+                          for k in (1, 2, 3, 4) for bd in ('linear', 'circular') for rad in (False, True)]
+    cases += [dict(id=n + j, media=md) for j, md in enumerate(fixed)]
+    shards = [cases[k::NCPU] for k in range(NCPU) if cases[k::NCPU]]
+    res = run_workers('rep.env', [dict(cases=s) for s in shards])
+    real = {}
+    for ok, r in res:
+        if not ok:
+            chk.tie_broken('correspondence', 'env', 'real code could not be run: ' + str(r)[-600:]); continue
+        for x in r['results']:
+            real[x['id']] = x
+    if not vo_ok('Model/Env.v'):
+        chk.tie_broken('correspondence', 'env', 'model (Model/Env.v) does not compile'); return
+    def coq_media(md):
+        if md is None: return 'None'
+        if md == []: return 'Some [mkMed true false]'
+        return 'Some %s' % coq_list(['mkMed false %s' % ('true' if x.get('nradials') else 'false') for x in md])
+    rc, out = coq_eval('env_%d' % os.getpid(), ENV_HEADER + 'Eval vm_compute in map env_report %s.\n' % coq_list([coq_media(c['media']) for c in cases]))
+    m = re.search(r'(?s)=\s*(\[.*\])\s*:\s*list \(list nat\)', out)
+    if rc != 0 or not m:
+        chk.tie_broken('correspondence', 'env', 'model evaluation failed: ' + out[-600:]); return
+    rows = [[int(x) for x in re.findall(r'\d+', row)] for row in re.findall(r'\[([^\[\]]*)\]', m.group(1))]
+    if len(rows) != len(cases):
+        chk.tie_broken('correspondence', 'env', 'model returned %d blocks for %d cases' % (len(rows), len(cases))); return
+    nbad = 0
+    for c, row in zip(cases, rows):
+        rr = real.get(c['id'])
+        if rr is None: continue
+        nm = 0 if not c['media'] else len(c['media'])
+        chk.add_case('env:' + json.dumps(c['media'], sort_keys=True), nm >= 2, sample=dict(stage='env', media=nm))
+        if 'error' in rr:
+            nbad += 1; chk.tie_broken('correspondence', 'env', 'environment block of %r raises %s' % (c['media'], rr['error']['exception'])); continue
+        if rr['kinds'] != row:
+            nbad += 1
+            chk.tie_broken('correspondence', 'env', 'environment block of %d media has the lines %r, the model %r' % (nm, rr['kinds'], row))
+            # the disagreement is itself a failing input when the model's theorem is what the property asks: heights / interfaces
+            if rr['kinds'].count(7) != max(nm - 1, 0) or rr['kinds'].count(6) != max(nm - 1, 0):
+                chk.violation(dict(stage='env', what='environment block'), 'the report of %d media prints %d HEIGHT and %d interface lines (%d of each are due): kinds %r'
+                              % (nm, rr['kinds'].count(7), rr['kinds'].count(6), max(nm - 1, 0), rr['kinds']),
+                              dict(f=10.0, wires=[gen.wire(4, [0, 0, 1.0], [0, 0, 3.0], 0.001)], media=c['media'], family='env', tagmode='none', sources=[], loads=[]))
+    chk.stages['env'] = dict(cases=len(cases), disagreements=nbad)
